@@ -125,7 +125,8 @@ pub fn run(ctx: &Ctx, model: &mut Model, rep: &mut Report) {
         let key = r.pick(&keys[..]).clone();
         let mut p = hist::profile_for(&keys, &key, true);
         p.max_depth = 5;
-        docs.push((key, gen::document(&mut r, &p), i % 3 == 0));
+        let text = if i % 97 == 5 || i % 97 == 6 { gen::long_ordered_list(&mut r) } else { gen::document(&mut r, &p) };
+        docs.push((key, text, i % 3 == 0));
     }
     for (i, (key, text, corr)) in docs.iter().enumerate() {
         rep.case(text, text.matches('#').count() + text.matches("===").count() >= 2);
